@@ -83,7 +83,7 @@ fn eval_writer(_ctx: &Ctx, case: &WriterCase) -> Verdict {
     Ok(pass)
 }
 
-fn residue_cases() -> Vec<WriterCase> {
+pub fn residue_cases() -> Vec<WriterCase> {
     let mut out = Vec::new();
     for d in 1..=24usize {
         for e in 0..=4usize {
@@ -288,6 +288,24 @@ fn eval_reader(_ctx: &Ctx, case: &ReaderCase) -> Verdict {
             }
         }
         Err(e) => fail!("{what}: rejected a valid file: {e}; header {:?}", parsed.header_text),
+    }
+    // the same bytes through buffered readers whose buffer ends inside a value
+    {
+        let slice_result = lib_read_npy(&bytes)?;
+        for cap in [1usize, 3, 7, 9, 13, 100, 4099] {
+            let data = bytes.clone();
+            let got = guard(move || {
+                let reader = std::io::BufReader::with_capacity(cap, std::io::Cursor::new(data));
+                Array::read_npy(reader).map(|a| (a.shape().as_ref().to_vec(), a.as_slice().to_vec())).map_err(|e| e.to_string())
+            })
+            .map_err(|p| Failure::new(format!("read_npy through BufReader({cap}): {p}")))?;
+            let same = match (&got, &slice_result) {
+                (Ok((s1, v1)), Ok((s2, v2))) => s1 == s2 && v1.len() == v2.len() && v1.iter().zip(v2).all(|(a, b)| a.to_bits() == b.to_bits()),
+                (Err(_), Err(_)) => true,
+                _ => false,
+            };
+            ensure!(same, "{what}: reading through a BufReader of capacity {cap} gives {:?}, reading from a slice gives {:?}", got.as_ref().map(|(s, v)| (s.clone(), v.len())), slice_result.as_ref().map(|(s, v)| (s.clone(), v.len())));
+        }
     }
     // the same file marked Fortran-ordered must be rejected
     let fortran = build_file(case, true, None);
@@ -570,13 +588,25 @@ fn eval_cli(ctx: &Ctx, case: &CliCase) -> Verdict {
         let earlier = crate::props::common::npy_bytes(&crate::model::spec::Spec::new(vec![n + 40], vec![7.0; n + 40]));
         std::fs::write(dir.join("out.npy"), earlier).expect("write");
     }
+    let huge_header = case.shape.len() > 20_000;
+    let shown: Vec<usize> = case.shape.iter().copied().take(4).collect();
     let bytes = if case.to_file {
         let run = cli::sfs(ctx, &["view", "-O", "npy", "-o", "out.npy", "in.sfs"], Input::Null, &dir);
-        ensure!(run.ok() && run.stdout.is_empty(), "view -O npy -o on shape {:?}: {}", case.shape, run.describe());
+        if huge_header && !run.ok() {
+            // the header does not fit format version 1.0: refused, and no spectrum left behind
+            let left = std::fs::read(dir.join("out.npy")).unwrap_or_default();
+            ensure!(run.clean_failure() && run.stdout.is_empty() && left.len() < 10, "view -O npy -o on {} axes ({shown:?}..) must be refused cleanly: {} ({} bytes in the output file)", case.shape.len(), run.describe(), left.len());
+            return Ok(Pass::new().nontrivial(true).label("header-too-long-refused"));
+        }
+        ensure!(run.ok() && run.stdout.is_empty(), "view -O npy -o on {} axes ({shown:?}..): {}", case.shape.len(), cli::cut(&run.describe(), 300));
         std::fs::read(dir.join("out.npy")).map_err(|e| Failure::new(format!("no output file: {e}")))?
     } else {
         let run = cli::sfs(ctx, &["view", "-O", "npy", "in.sfs"], Input::Null, &dir);
-        ensure!(run.ok(), "view -O npy on shape {:?}: {}", case.shape, run.describe());
+        if huge_header && !run.ok() {
+            ensure!(run.clean_failure() && run.stdout.is_empty(), "view -O npy on {} axes ({shown:?}..) must be refused cleanly with nothing on stdout: {}", case.shape.len(), cli::cut(&run.describe(), 300));
+            return Ok(Pass::new().nontrivial(true).label("header-too-long-refused"));
+        }
+        ensure!(run.ok(), "view -O npy on {} axes ({shown:?}..): {}", case.shape.len(), cli::cut(&run.describe(), 300));
         run.stdout
     };
     let bits: Vec<u64> = values.iter().map(|v| v.to_bits()).collect();
@@ -646,7 +676,7 @@ pub fn check(ctx: &Ctx) -> Check {
         }),
         Box::new(EnumPart {
             name: "cli-writer",
-            rule: "`sfs view -O npy` to stdout and with -o on the residue-sweeping shapes, plus spectra in which one value's bytes contain a line feed followed by more than 1 KiB of LF-free data (binary output through a line-buffered stdout): same validator",
+            rule: "`sfs view -O npy` to stdout and with -o on the residue-sweeping shapes, on 21 800 .. 21 830 axes of length 1 (headers at the edge of the 65 535 bytes NPY 1.0 can declare: a valid file or a clean refusal), plus spectra in which one value's bytes contain a line feed followed by more than 1 KiB of LF-free data (binary output through a line-buffered stdout): same validator",
             exhaustive: false,
             cases: Box::new(|ctx| {
                 let step = ctx.tier.pick(2, 1);
@@ -655,6 +685,15 @@ pub fn check(ctx: &Ctx) -> Check {
                 for (shape, at) in [(vec![300usize], 0usize), (vec![300], 7), (vec![20, 20], 150), (vec![1500], 1000), (vec![9, 9, 9], 2), (vec![5000], 4096)] {
                     for to_file in [false, true] {
                         v.push(CliCase { shape: shape.clone(), to_file, line_feed_at: Some(at) });
+                    }
+                }
+                // headers at the edge of what NPY 1.0 can declare (65 535 bytes): thousands of axes
+                // of length 1 (first axis 1, 10 or 100): a valid file, or a refusal that writes nothing
+                for axes in [21_800usize, 21_820, 21_821, 21_822, 21_823, 21_824, 21_825, 21_826, 21_827, 21_828, 21_830] {
+                    for first in [1usize, 10, 100] {
+                        let mut shape = vec![1usize; axes];
+                        shape[0] = first;
+                        v.push(CliCase { shape, to_file: axes % 2 == 0, line_feed_at: None });
                     }
                 }
                 v
